@@ -90,7 +90,7 @@ func GenScript(r *hx.Rand, kinds []string, nops int) []string {
 	for i := 0; i < nops; i++ {
 		switch x := r.Intn(100); {
 		case x >= 100-Corruption:
-			script = append(script, fmt.Sprintf("corrupt %d", r.Intn(total)))
+			script = append(script, fmt.Sprintf("corrupt %d %s", r.Intn(total), []string{"s", "s", "r", "c", "w", "a", "q"}[r.Intn(7)]))
 		case x == 0 && bm.Alloc == "dev" && Corruption == 0:
 			script = append(script, fmt.Sprintf("ioerr %s %d", []string{"r", "w"}[r.Intn(2)], r.Intn(3)))
 		case x < 30:
@@ -119,7 +119,7 @@ func GenScript(r *hx.Rand, kinds []string, nops int) []string {
 			}
 			nextOp++
 		case x < 70:
-			script = append(script, fmt.Sprintf("get %d %s", r.Intn(total), []string{"s", "s", "s", "r", "c", "w", "a", "p", "d", "x"}[r.Intn(10)]))
+			script = append(script, fmt.Sprintf("get %d %s", r.Intn(total), []string{"s", "s", "s", "r", "c", "w", "a", "q", "p", "d", "x"}[r.Intn(11)]))
 		case x < 85:
 			n := r.Range(1, 3)
 			var os []string
@@ -397,7 +397,9 @@ func Main(run *hx.Run, model *hx.Model, label string, props []string, kinds []st
 		return
 	}
 	for name, script := range run.CorpusScripts() {
-		handle("corpus/"+name, script)
+		if strings.HasPrefix(script[0], "#cfg ") {
+			handle("corpus/"+name, script)
+		}
 	}
 	n := run.Scale(quick, thorough)
 	for i := 0; i < n && oracles < 5 && run.Findings() < 12; i++ {
